@@ -107,7 +107,8 @@ fn run_one(code: &str) -> String {
 
 fn load_corpus() -> Vec<(String, String)> {
     let mut files = vec![];
-    for dir in ["/repo/testcases/veryl", "/repo/testcases/error", "/repo/crates/std/veryl/src"] {
+    // corpus/C11: minimised past crashes (witnesses of the recorded findings), always run first
+    for dir in ["/verif/corpus/C11", "/repo/testcases/veryl", "/repo/testcases/error", "/repo/crates/std/veryl/src"] {
         let mut stack = vec![PathBuf::from(dir)];
         while let Some(d) = stack.pop() {
             let Ok(rd) = std::fs::read_dir(&d) else { continue };
@@ -135,6 +136,7 @@ pub fn main(opts: &Opts) -> i32 {
     let replay = opts.get("replay").map(|x| x.to_string());
     let workers = opts.num("workers", 16) as usize;
     let one = opts.get("one").map(|x| x.to_string());
+    let mem_kb = opts.num("mem_kb", 6_000_000);
     panic::set_hook(Box::new(|info| {
         let loc = info.location().map(|l| format!("{}:{}", l.file(), l.line())).unwrap_or_default();
         let msg = if let Some(s) = info.payload().downcast_ref::<&str>() {
@@ -210,9 +212,18 @@ pub fn main(opts: &Opts) -> i32 {
                         }
                         let f = case_dir.join(format!("{idx}.veryl"));
                         let t = Instant::now();
-                        let mut child = std::process::Command::new(&exe)
-                            .arg("pipeline")
-                            .arg("--one")
+                        // The limit is on the child's CPU time and address space (ulimit), not on
+                        // wall-clock time: a loaded machine must not turn a 50 ms analysis into a
+                        // "slow" verdict.  `limit_ms` is the CPU budget; the wall-clock guard is
+                        // 20x larger and only catches a child that sleeps for ever.
+                        let cpu_s = (limit_ms / 1000).max(1);
+                        let script = format!(
+                            "ulimit -t {cpu_s}; ulimit -v {mem_kb}; exec \"$0\" pipeline --one \"$1\""
+                        );
+                        let mut child = std::process::Command::new("sh")
+                            .arg("-c")
+                            .arg(&script)
+                            .arg(&exe)
                             .arg(&f)
                             .stdout(std::process::Stdio::piped())
                             .stderr(std::process::Stdio::null())
@@ -228,13 +239,19 @@ pub fn main(opts: &Opts) -> i32 {
                                     if st.success() && !line.is_empty() {
                                         break line;
                                     }
+                                    use std::os::unix::process::ExitStatusExt;
+                                    match st.signal() {
+                                        // SIGXCPU / SIGKILL after the CPU limit
+                                        Some(24) | Some(9) => break format!("slow cpu>{cpu_s}s"),
+                                        _ => {}
+                                    }
                                     break format!("abort status={st}").replace(' ', "_").replacen("abort_", "abort ", 1);
                                 }
                                 None => {
-                                    if t.elapsed().as_millis() > limit_ms {
+                                    if t.elapsed().as_millis() > limit_ms * 20 {
                                         let _ = child.kill();
                                         let _ = child.wait();
-                                        break format!("slow ms>{limit_ms}");
+                                        break format!("slow wall>{}ms", limit_ms * 20);
                                     }
                                     std::thread::sleep(std::time::Duration::from_millis(2));
                                 }
